@@ -38,6 +38,7 @@ def correspondence(ctx):
         cases.append(f'rules|nick|addmap|{h_}')
         cases.append(f'rules|op|addmap|{h_}')
         cases.append(f'finddis|{h_}')
+    cases += fuzz_cases(ctx, {7})      # coverage-guided search of the tree under check (only when the source changed / thorough)
     res = run_cases(cases, ctx.work)
     zset = set(zs)
 
